@@ -408,4 +408,15 @@ theorem mkSound_rules : MkSound mkRules := by
   | none => rfl
   | some r => exact firstRule_sound _ r hr env h
 
+theorem notSound_mkNotR : NotSound mkNotR := by
+  intro env c b h
+  have h1 := notSound_mkNot env c b h
+  unfold mkNotR
+  split
+  · rename_i op args heq
+    rw [heq] at h1
+    rw [mkSound_rules env op args (by rw [h1]; simp), h1]
+  · rename_i x hx
+    exact h1
+
 end Claripy.AST
